@@ -164,8 +164,8 @@ def run_module(text: str, modname: str, timeout: int = 30, jobs: int = 16, only:
     tasks = []
     with concurrent.futures.ThreadPoolExecutor(max_workers=jobs) as pool:
         for n in names:
-            if n in unavailable:
-                results[n] = KResult(n, "unavailable", unavailable[n])
+            if n in unavailable or "*" in unavailable:
+                results[n] = KResult(n, "unavailable", unavailable.get(n, unavailable.get("*", "")))
                 continue
             tasks.append((n, "main", pool.submit(_run_one, path, table[n]["line"], timeout)))
             tasks.append((n, "twin", pool.submit(_run_one, path, table[n]["twin_line"], min(timeout, 20))))
